@@ -76,6 +76,29 @@ FOURTH_ROUND_MISSES = {
  "C20-10": "missed: break_tie was only called with a sorted array and 'random' -> also 'first' / 'accept' on an unsorted array",
  "C20-11": "missed: positivity_graph was only called on exact matrices -> also on a matrix with 1e-17 residues and a negative zero",
 }
+FIFTH_ROUND_MISSES = {
+ "C01-13": "missed: the largest market had 170 residents -> one market with 258..400 residents per batch in which nearly everybody applies to the same small hospital first (`popular_market`)",
+ "C02-13": "missed: capacities were small -> 5-8% of the instances give one hospital the capacity sys.maxsize ('unlimited'), stored as int64 / uint64",
+ "C02-14": "missed: no run needed many rounds -> one instance per orientation that needs more than ten thousand rounds (one hospital / one resident, a single acceptable pair at the end of a list of 10500..12500); beyond the compiled model's practical size, so judged by the direct oracles only (counted separately in the evidence)",
+ "C03-14": "missed: valuations were small or, when huge, came with the ordinal profiles omitted -> kind `huge` (amounts up to 2e9 / 1e10, agreeing or free) on a quarter of the instances, a third of them with opposed interests (many rotations)",
+ "C04-14": "missed: integer utilities were at most 250 -> kind `large_integers_close_together` (2^24 .. 2^45 plus 0..6)",
+ "C04-15": "missed: the buffer was reused but wrapped in a fresh profile object -> the very same profile object is revised in place and passed again",
+ "C05-13": "missed: C05 always built the rules with zero_indexed=False -> 40% with zero_indexed=True (the bistochastic outcome must not depend on it)",
+ "C07-14": "caught by thorough only: eating was drawn for at most 6 agents in quick -> every fourth eating item has 7 or 8 agents",
+ "C09-13": "caught by thorough only (about 1 in 5000 graphs of the old mix) -> volume stage: 48000 sparse near-square graphs with 5..12 vertices a side, pre-filtered in the workers by the independent Kuhn matcher; suspects join the judged set",
+ "C09-14": "missed: both sides were never empty -> 2% of the graphs have an empty side",
+ "C13-13": "missed: k never exceeded m -> k-approval gets its own k, sometimes m+1 / m+2",
+ "C15-13": "missed: runs asked at most a few hundred distinct questions -> long runs (34 x 34 = 1156 distinct questions) with memoisation forced",
+ "C15-14": "missed: integer answers stayed below 2^53 -> an IntegerLambdaElicitor answering beyond 2^53",
+ "C15-15": "missed: the valuation table behind a ValuationProfileElicitor was never edited between questions -> `table` items edit it in place",
+ "C17-13": "missed by C17's check, caught by C03's on one seed of two: uniformly random profiles have one or two rotations -> instances with opposed interests (about n rotations, dense posets) in C03 and C17, and C17 now runs the stage-by-stage comparison of Irving's internals with the Lean mirror on the simulated values (reported as a broken correspondence, usually `no-failing-input-found`)",
+ "C17-14": "missed: valuations were at most 60 -> kind `huge` (values up to 2e9, one side possibly indifferent)",
+ "C19-13": "missed: every categorical ballot listed something -> ballots with nothing but empty categories (as long as some other ballot lists an alternative: an election without any rank has no profile in this library)",
+ "C19-14": "missed: at most 9 alternatives -> one instance in a hundred has 255..300",
+ "C19-15": "missed: every instance was parsed and converted once -> a quarter are converted, extended through preflibtools (same object) and converted again; the second result is judged as the conversion of the merged instance",
+ "C20-14": "missed: the decomposition was only given exact matrices -> also a matrix with an entry below every tolerance and a negative zero",
+ "C20-15": "missed: vertex lists were increasing -> also decreasing lists (the lists belong to the graph argument)",
+}
 rows = []
 for d in sorted(glob.glob(os.path.join(VERIF, "seeded", "C*-*"))):
     m = json.load(open(os.path.join(d, "meta.json")))
@@ -97,7 +120,7 @@ for d in sorted(glob.glob(os.path.join(VERIF, "seeded", "C*-*"))):
         fe = m.get("first_evaluation") or {}
         fq = (fe.get("caught_by_quick") or m["caught_by_quick"]).get(p)
         fa = (fe.get("caught_by_any_tier") or m["caught_by_any_tier"]).get(p)
-        first = SECOND_ROUND_MISSES.get(mid) or THIRD_ROUND_MISSES.get(mid) or FOURTH_ROUND_MISSES.get(mid) or ("caught by quick" if fq else ("caught by thorough only" if fa else "missed"))
+        first = SECOND_ROUND_MISSES.get(mid) or THIRD_ROUND_MISSES.get(mid) or FOURTH_ROUND_MISSES.get(mid) or FIFTH_ROUND_MISSES.get(mid) or ("caught by quick" if fq else ("caught by thorough only" if fa else "missed"))
     else:
         first = FIRST_ROUND_MISSES.get(mid, "caught by quick")
     rows.append(f"| {mid} | {m.get('round', 1)} | {summ} | {needs} | {now} | {first} |")
